@@ -503,6 +503,127 @@ func idnaFold(s string) string {
 	return sb.String()
 }
 
+// ---------------------------------------------------------------- hosts that are an address literal only after IDNA mapping
+
+// net/http maps the URL host through IDNA (UTS #46) before it asks for a connection: fullwidth
+// digits become ASCII digits, U+3002 / U+FF0E / U+FF61 become '.'. Such a host is no IP literal
+// for anything that looks at url.Hostname() and IS one at dial time. The percent-encoded form is
+// pure ASCII in the URL text (certificate extensions carry it) and is decoded by net/url.
+var idnaTargets = []struct{ label, ip string }{
+	{"loopback", "127.0.0.1"}, {"rfc1918-10", "10.0.0.1"}, {"rfc1918-192", "192.168.1.10"}, {"rfc1918-172", "172.16.0.1"},
+	{"metadata", "169.254.169.254"}, {"unspecified", "0.0.0.0"}, {"loopback-53", "127.0.0.53"},
+}
+
+func respell(ascii string, digit func(i int, c rune) rune, dot func(i int) rune) string {
+	var sb strings.Builder
+	nd, np := 0, 0
+	for _, c := range ascii {
+		switch {
+		case c >= '0' && c <= '9':
+			sb.WriteRune(digit(nd, c))
+			nd++
+		case c == '.':
+			sb.WriteRune(dot(np))
+			np++
+		default:
+			sb.WriteRune(c)
+		}
+	}
+	return sb.String()
+}
+
+func fwDigit(_ int, c rune) rune    { return '０' + (c - '0') }
+func asciiDigit(_ int, c rune) rune { return c }
+func dotOf(r rune) func(int) rune   { return func(int) rune { return r } }
+
+var idnaSpellings = []struct {
+	label string
+	spell func(ascii string) string
+}{
+	{"fw-digits", func(a string) string { return respell(a, fwDigit, dotOf('.')) }},
+	{"ideographic-stop", func(a string) string { return respell(a, asciiDigit, dotOf('。')) }},
+	{"fw-stop", func(a string) string { return respell(a, asciiDigit, dotOf('．')) }},
+	{"hw-stop", func(a string) string { return respell(a, asciiDigit, dotOf('｡')) }},
+	{"fw-digits+ideographic-stop", func(a string) string { return respell(a, fwDigit, dotOf('。')) }},
+	{"mixed", func(a string) string {
+		return respell(a, func(i int, c rune) rune {
+			if i%2 == 0 {
+				return fwDigit(i, c)
+			}
+			return c
+		}, func(i int) rune { return []rune{'。', '.', '．', '｡'}[i%4] })
+	}},
+	{"pct-utf8", func(a string) string {
+		// the fullwidth/ideographic spelling with every non-ASCII byte percent-encoded
+		var sb strings.Builder
+		for _, c := range []byte(respell(a, fwDigit, dotOf('。'))) {
+			if c >= 0x80 {
+				fmt.Fprintf(&sb, "%%%02X", c)
+			} else {
+				sb.WriteByte(c)
+			}
+		}
+		return sb.String()
+	}},
+}
+
+// idnaHop appends a hop whose host is spelling sp of the address ip.
+func (b *builder) idnaHop(sp int, ip, via string, routed bool) {
+	i := len(b.sc.Chain)
+	sch := "http"
+	if !routed {
+		sch = b.scheme()
+	}
+	spelled := idnaSpellings[sp].spell(ip)
+	host := spelled
+	if idnaSpellings[sp].label == "pct-utf8" {
+		host = respell(ip, fwDigit, dotOf('。')) // what net/url makes of it
+	}
+	h := Hop{Host: host, Scheme: sch, Via: via, URL: sch + "://" + spelled + b.port(sch) + b.path(i)}
+	g := Hop{Host: ip, Scheme: sch, Via: via, URL: fmt.Sprintf("(ASCII reading of hop %d)", i)}
+	if i > 0 && via != "" {
+		g.Via = "redirect-" + via
+	}
+	if routed {
+		h.Routed = canonAll([]string{ip})
+	}
+	b.sc.Chain = append(b.sc.Chain, h)
+	b.sc.Ghosts = append(b.sc.Ghosts, g)
+}
+
+func idnaItems() []item {
+	var its []item
+	// control: the same spellings of a PUBLIC address are fetched (shows that the mapping takes place
+	// and that the mapped literal is what gets dialled)
+	for _, sp := range []int{0, 4, 6} {
+		sp := sp
+		its = append(its, item{"control-" + idnaSpellings[sp].label + "-public", func(b *builder) {
+			b.idnaHop(sp, pubV4(b.r), "", true)
+			b.sc.ExpectFetch = true
+		}})
+	}
+	for ti, tg := range idnaTargets {
+		for sp, s := range idnaSpellings {
+			ti, tg, sp, s := ti, tg, sp, s
+			_ = ti
+			its = append(its, item{s.label + "-" + tg.label, func(b *builder) {
+				b.idnaHop(sp, tg.ip, "idna-literal", false)
+			}})
+			its = append(its, item{"pub>" + s.label + "-" + tg.label, func(b *builder) {
+				for k, n := 0, 1+b.r.IntN(2); k < n; k++ {
+					st := b.status()
+					if b.sc.Site == siteOCSP && (st == 307 || st == 308) {
+						st = 302 // a POST without GetBody is not replayed on 307/308: the target would never be asked for
+					}
+					b.pubHop("http").Status = st
+				}
+				b.idnaHop(sp, tg.ip, "idna-literal", false)
+			}})
+		}
+	}
+	return its
+}
+
 func dnsItems() []item {
 	var its []item
 	add := func(label string, f func(b *builder)) { its = append(its, item{label, f}) }
@@ -961,13 +1082,18 @@ var coreLabels = func() map[string]bool {
 		"redirect/pub>userinfo-user:pw@", "redirect/pub>userinfo-same-host", "redirect/pub>scheme-ftp", "redirect/pub>pub-302",
 		"redirect/pub*11>private-name", "redirect/listed>private-not-listed", "redirect/listed>lookalike", "redirect/pub>rebinding", "redirect/pub>rebinding-multi",
 		"redirect/pub>mixed-dns-down",
+		// every spelling once and every target class once as the URL host, four as redirect targets
+		"idna/control-fw-digits-public",
+		"idna/fw-digits-loopback", "idna/ideographic-stop-rfc1918-10", "idna/fw-stop-rfc1918-192", "idna/hw-stop-rfc1918-172",
+		"idna/fw-digits+ideographic-stop-metadata", "idna/mixed-unspecified", "idna/pct-utf8-loopback-53",
+		"idna/pub>fw-digits+ideographic-stop-loopback", "idna/pub>mixed-metadata", "idna/pub>fw-stop-rfc1918-10", "idna/pub>pct-utf8-unspecified",
 	} {
 		m[l] = true
 	}
 	return m
 }()
 
-// groups and their share of the budget (out of 20)
+// groups and their share of the budget (out of 24)
 var groupTable = []struct {
 	name   string
 	weight int
@@ -978,6 +1104,7 @@ var groupTable = []struct {
 	{"dns", 4, dnsItems()},
 	{"allow", 3, allowItems()},
 	{"redirect", 5, redirectItems()},
+	{"idna", 4, idnaItems()},
 	{"offline", 1, nil}, // built from other groups' items with Offline=true
 }
 
